@@ -4,6 +4,7 @@ import Anysystem.Proofs.SimLogThms
 import Anysystem.Proofs.SimTraceInv
 import Anysystem.Proofs.SimTimeOrder
 import Anysystem.Proofs.SimLogTimes
+import Anysystem.Proofs.SimStepTimeout
 /-!
 # C17 — Logs, event logs, counters and outboxes tell one consistent story
 
@@ -61,5 +62,9 @@ namespace Anysystem
 #check @Sim.step_log_times
 #check @Sim.sendLocal_log_times
 #check @Sim.log_times_sorted
+
+/- nothing is consumed without being returned: `step_until_local_message_timeout` (`Proofs/SimStepTimeout.lean`) -/
+#check @Sim.stepUntilLocalTimeout_some_frame
+#check @Sim.stepUntilLocalTimeout_none_keeps_outboxes
 
 end Anysystem
